@@ -1,0 +1,19 @@
+//go:build verif
+
+// Contracts for package pubsubraw, read by /verif/govc. Comments only.
+package pubsubraw
+
+//@ noeffect pkg github.com/libp2p/go-libp2p-pubsub
+// a subscription returns a message (with its protobuf part) or an error
+//@ extern (*github.com/libp2p/go-libp2p-pubsub.Subscription).Next as (s).Next(ctx) (m, err)
+//@   ensures err == nil ==> m != nil && m.Message != nil
+//@   modifies nothing
+
+// WatchMessages (the forwarding goroutine): a message received from the local peer is never forwarded;
+// every forwarded event carries exactly the bytes of the message just received.
+//@ func (*psTopic).WatchMessages$1
+//@   props C20
+//@   flag nilcalls
+//@   requires p != nil && p.ps != nil && p.ps.logger != nil && sub != nil
+//@   assert @ before call pubsub.NewEventMessage#1: msg.ReceivedFrom != p.ps.id
+//@   assert @ after send ch: ptr(sent(ch)[len(sent(ch)) - 1], "berty.tech/go-orbit-db/iface.EventPubSubMessage").Content == msg.Message.Data
